@@ -38,7 +38,8 @@ def run_basic(prop, tier, seed, gen_kwargs=None):
     if prop in ("C04", "C05"):
         want = lambda g, cfg: all(cfg.all_productive(s) for s in g.starts())
     if prop == "C06":
-        genf = lambda r: gen.gen_loc(r, **gk)
+        from .. import gen3 as _g3
+        genf = lambda r: _g3.gen_prefix_overlap_loc(r) if r.random() < 0.25 else gen.gen_loc(r, **gk)
     elif prop in ("C01", "C04", "C05"):
         # a third of the grammars stress the lane-table construction (LR(1), mostly not LALR(1))
         from .. import gen3
